@@ -104,15 +104,18 @@ pub fn reference(scan: &Scan, s: &[u8], offset: usize) -> (usize, Need) {
 }
 
 /// What a minimal consumer does with the same answers: read until `need` is covered.
-fn reference_reads(s: &[u8], log: &[Ans], chunk: usize, need: Need) -> (usize, u32, u32) {
+fn reference_reads(s: &[u8], log: &[Ans], chunk: usize, need: Need, pre_calls: u32) -> (usize, u32, u32) {
     let (mut src, st) = ScriptedSource::new(SourceCfg::new(s, Grain::Script(log.to_vec())), vec![]);
     let mut buf = vec![0u8; chunk];
     let mut have = 0usize;
+    let mut calls = 0u32;
     loop {
+        // the reads the harness itself made before the scan (pre-buffered bytes) happen regardless
         match need {
-            Need::Bytes(k) if have >= k => break,
+            Need::Bytes(k) if have >= k && calls >= pre_calls => break,
             _ => {}
         }
+        calls += 1;
         match src.read(&mut buf) {
             Ok(0) => break,
             Ok(n) => have += n,
@@ -128,6 +131,31 @@ pub struct Case<'a> {
     pub offset: usize,
     pub scan: &'a Scan,
     pub chunk: usize,
+    /// displaced start: 2*chunk + 1 bytes are read and consumed before the scan, so that the cursor
+    /// is more than two chunks into the buffer and the first refill inside the scan realigns it;
+    /// Some(k): k bytes of the text are buffered as well before the scan starts (the first look-ups
+    /// hit the buffer, the realigning refill happens in the middle of the scan)
+    pub displaced: Option<usize>,
+}
+
+/// Serves a fixed prefix (as much as fits per read, never mixed with the inner source), then the
+/// inner source.
+struct Prefixed<R> {
+    prefix: Vec<u8>,
+    pos: usize,
+    inner: R,
+}
+
+impl<R: Read> Read for Prefixed<R> {
+    fn read(&mut self, buf: &mut [u8]) -> std::io::Result<usize> {
+        if self.pos < self.prefix.len() && !buf.is_empty() {
+            let n = buf.len().min(self.prefix.len() - self.pos);
+            buf[..n].copy_from_slice(&self.prefix[self.pos..self.pos + n]);
+            self.pos += n;
+            return Ok(n);
+        }
+        self.inner.read(buf)
+    }
 }
 
 #[derive(Debug)]
@@ -142,9 +170,17 @@ pub fn exec(case: &Case, forced: Vec<(u32, u32)>) -> (Vec<(u32, u32)>, Option<St
     let (source, st) = ScriptedSource::new(cfg, forced);
     let (expected, need) = reference(case.scan, case.s, case.offset);
     let mut problems = Vec::new();
+    let displaced_by = if case.displaced.is_some() { 2 * case.chunk + 1 } else { 0 };
+    let pre = case.displaced.unwrap_or(0).min(case.s.len());
+    let pre_calls = std::cell::Cell::new(0u32);
     let res = catch(|| {
-        let mut reader = DeferredReader::from_read(source);
+        let mut reader = DeferredReader::from_read(Prefixed { prefix: vec![b'y'; displaced_by], pos: 0, inner: source });
         reader.set_chunk_size(case.chunk);
+        if displaced_by > 0 {
+            reader.request(displaced_by + pre);
+            reader.advance(displaced_by);
+            pre_calls.set(st.borrow().read_calls);
+        }
         let r = match case.scan {
             Scan::TabsOrSpaces => text::tabs_or_spaces(&mut reader, case.offset),
             Scan::Newline => text::newline(&mut reader, case.offset),
@@ -162,13 +198,13 @@ pub fn exec(case: &Case, forced: Vec<(u32, u32)>) -> (Vec<(u32, u32)>, Option<St
             if r != expected {
                 problems.push(("offset".into(), format!("returned offset {r}, documented behaviour gives {expected}")));
             }
-            if position != 0 {
+            if position != displaced_by {
                 problems.push(("consumed".into(), format!("scanner moved the cursor to {position}")));
             }
             if buf_len != st.pos || buf[..] != case.s[..st.pos.min(case.s.len())] {
                 problems.push(("buffer".into(), format!("buffered data {:?} is not the delivered prefix ({} bytes delivered)", show(&buf), st.pos)));
             }
-            let (pos, calls, eofs) = reference_reads(case.s, &st.log, case.chunk, need);
+            let (pos, calls, eofs) = reference_reads(case.s, &st.log, case.chunk, need, pre_calls.get());
             if (st.pos, st.read_calls, st.eof_returned) != (pos, calls, eofs) {
                 let kind = if st.read_calls > calls { "over-read" } else { "under-read" };
                 problems.push((
@@ -183,6 +219,9 @@ pub fn exec(case: &Case, forced: Vec<(u32, u32)>) -> (Vec<(u32, u32)>, Option<St
     }
     (st.chooser.taken.clone(), st.chooser.diverged.clone(), Outcome { problems, reads: st.read_calls, result })
 }
+
+/// strings up to this length also run with a displaced start (set from the tier in `run`)
+static DISPLACED_MAX_LEN: std::sync::atomic::AtomicUsize = std::sync::atomic::AtomicUsize::new(5);
 
 const ALPHABET: [u8; 5] = [b' ', b'\t', b'\r', b'\n', b'x'];
 
@@ -241,6 +280,7 @@ fn replay_value(case: &Case, taken: &[(u32, u32)]) -> Value {
         "input": show(case.s),
         "offset": case.offset,
         "chunk": case.chunk,
+        "displaced": case.displaced,
         "choices": taken.iter().map(|(c, n)| json!([c, n])).collect::<Vec<_>>(),
     })
 }
@@ -258,12 +298,21 @@ fn check_string(s: &[u8], report: &mut Report) {
 }
 
 fn check_string_with(s: &[u8], offsets: &[usize], chunks: &[usize], bound: Option<usize>, report: &mut Report) {
+    check_string_variants(s, offsets, chunks, bound, &[None, Some(0), Some(1), Some(2)], "C16", report)
+}
+
+fn check_string_variants(s: &[u8], offsets: &[usize], chunks: &[usize], bound: Option<usize>, variants: &[Option<usize>], property: &str, report: &mut Report) {
+    let displaced_max_len = DISPLACED_MAX_LEN.load(std::sync::atomic::Ordering::Relaxed);
     for &offset in offsets {
         let mut scans = vec![Scan::TabsOrSpaces, Scan::Newline, Scan::NextNewline];
         scans.extend(patterns_for(s, offset).into_iter().map(Scan::Fixed));
         for scan in &scans {
-            for &chunk in chunks {
-                let case = Case { s, offset, scan, chunk };
+            for &(chunk, displaced) in chunks.iter().flat_map(|&c| variants.iter().map(move |&d| (c, d))).collect::<Vec<_>>().iter() {
+                // the displaced start only for small chunk sizes and short strings
+                if displaced.is_some() && (chunk > 4 || s.len() > displaced_max_len || offset > s.len() + 1 || displaced.unwrap() > s.len()) {
+                    continue;
+                }
+                let case = Case { s, offset, scan, chunk, displaced };
                 let mut local_err = None;
                 let r = explore(
                     bound,
@@ -288,9 +337,16 @@ fn check_string_with(s: &[u8], offsets: &[usize], chunks: &[usize], bound: Optio
                         ));
                         for (kind, what) in outcome.problems {
                             report.violation(
-                                format!("scanner/{}/{}", scan.name(), kind),
-                                format!("{}({:?}, offset {}{}) chunk {} schedule {:?}: {}", scan.name(), show(s), offset, if let Scan::Fixed(p) = scan { format!(", pattern {:?}", show(p)) } else { String::new() }, chunk, taken.iter().map(|c| c.0).collect::<Vec<_>>(), what),
-                                replay_value(&case, &taken),
+                                if property == "C16" { format!("scanner/{}/{}", scan.name(), kind) } else { format!("scanner/{}/displaced/{}", scan.name(), kind) },
+                                format!("{}({:?}, offset {}{}) chunk {}{} schedule {:?}: {}", scan.name(), show(s), offset, if let Scan::Fixed(p) = scan { format!(", pattern {:?}", show(p)) } else { String::new() }, chunk, displaced.map_or(String::new(), |k| format!(" (cursor displaced by 2*chunk+1 consumed bytes, {k} bytes of the text pre-buffered)")), taken.iter().map(|c| c.0).collect::<Vec<_>>(), what),
+                                {
+                                    let mut v = replay_value(&case, &taken);
+                                    if property != "C16" {
+                                        v["property"] = json!(property);
+                                        v["subject"] = json!("text scanners");
+                                    }
+                                    v
+                                },
                                 (s.len() * 100 + taken.len()) as u64,
                             );
                         }
@@ -310,8 +366,36 @@ fn check_string_with(s: &[u8], offsets: &[usize], chunks: &[usize], bound: Optio
     }
 }
 
+/// C14 part: the scanners with a displaced cursor (the first refill inside the scan realigns the
+/// buffer; a pointer or index into the buffer kept across the refill goes stale): every string up
+/// to length 4 (quick) / 5 (thorough), every offset, every scanner and pattern, chunk sizes 1, 2, 4,
+/// every read schedule.
+pub fn displaced_family(tier: Tier, report: &mut Report) {
+    let max_len = tier.pick(4, 5);
+    DISPLACED_MAX_LEN.store(max_len, std::sync::atomic::Ordering::Relaxed);
+    let mut strings = Vec::new();
+    for n in 0..=max_len {
+        strings.extend(strings_of_len(n));
+    }
+    let total = mc_core::par::par_fold(
+        strings.len(),
+        mc_core::threads(),
+        Report::new,
+        |acc, i| {
+            let s = &strings[i];
+            let offsets: Vec<usize> = (0..=s.len() + 1).collect();
+            check_string_variants(s, &offsets, &[1, 2, 4], None, &[Some(0), Some(1), Some(2), Some(3)], "C14", acc);
+            acc.states += 1;
+        },
+        |a, b| a.merge(b),
+    );
+    report.merge(total);
+    report.completed.push(format!("text scanners with a displaced cursor: {} strings x offsets x scanners/patterns x chunk {{1,2,4}} x all read schedules", strings.len()));
+}
+
 pub fn run(tier: Tier, report: &mut Report) {
     let max_len = tier.pick(6, 8);
+    DISPLACED_MAX_LEN.store(tier.pick(5, 6), std::sync::atomic::Ordering::Relaxed);
     let budget = Budget::new(tier.pick(60.0, 1500.0));
     let threads = mc_core::threads();
     // second family — the full byte alphabet: for every byte value b outside the small alphabet,
@@ -445,7 +529,7 @@ pub fn run(tier: Tier, report: &mut Report) {
         (&b"xx x\n"[..], 0, Scan::Fixed(b"xx\r".to_vec()), 2, vec![(1, 2)]),
         (&b"\t\r x\n "[..], 1, Scan::NextNewline, 16384, vec![(2, 6)]),
     ] {
-        let case = Case { s, offset, scan: &scan, chunk };
+        let case = Case { s, offset, scan: &scan, chunk, displaced: None };
         let (taken, _, outcome) = exec(&case, forced);
         let mut v = replay_value(&case, &taken);
         v["returned"] = json!(outcome.result);
@@ -464,7 +548,7 @@ pub fn replay(v: &Value) -> (bool, String) {
         _ => Scan::Fixed(unhex(v["pattern_hex"].as_str().unwrap())),
     };
     let forced: Vec<(u32, u32)> = v["choices"].as_array().unwrap().iter().map(|c| (c[0].as_u64().unwrap() as u32, c[1].as_u64().unwrap() as u32)).collect();
-    let case = Case { s: &s, offset: v["offset"].as_u64().unwrap() as usize, scan: &scan, chunk: v["chunk"].as_u64().unwrap() as usize };
+    let case = Case { s: &s, offset: v["offset"].as_u64().unwrap() as usize, scan: &scan, chunk: v["chunk"].as_u64().unwrap() as usize, displaced: v["displaced"].as_u64().map(|k| k as usize) };
     let (taken, diverged, outcome) = exec(&case, forced.clone());
     let (_, _, outcome2) = exec(&case, forced);
     let mut text = format!(
